@@ -131,6 +131,8 @@ func verifLemmaSpanDeterministic(m *Multi) (a, b, c, d int) {
 //@   ensures [gap]     !(rowStart(m.Seq[k]) <= pos && pos < rowStart(m.Seq[k]) + rowLen(m.Seq[k])) ==> viaColumn == gapOf(m.Alpha)
 func verifLemmaRowColumnAgree(m *Multi, pos, k int) (viaRow, viaColumn alphabet.Letter) {
 	viaColumn = m.Column(pos, true)[k]
-	viaRow = m.Row(k).At(pos).L
+	if r := m.Row(k); r.Start() <= pos && pos < r.End() {
+		viaRow = r.At(pos).L
+	}
 	return
 }
